@@ -84,14 +84,14 @@ type fTrace struct {
 
 // expression form -> VCL text ($x, $y = operand names)
 var forms = map[string]string{
-	"ilit": "3", "ivar": "$x", "ineg": "-$x", "istrlen": "std.strlen($x)", "iatoi": "std.atoi($x)",
+	"ilit": "3", "ivar": "$x", "ineg": "-$x", "istrlen": "std.strlen($x)",
 	"ibits": "5",
 	"flit": "1.5", "fvar": "$x", "fneg": "-$x", "fint": "$x", "fnegint": "-$x",
 	"rlit": "2s", "rvar": "$x", "rneg": "-$x",
 	"slit": `"x"`, "svar": "$x", "scat": "$x $y", "scatlit": `$x "z"`, "sif": `if($x, $y, "no")`,
 	"supper": "std.toupper($x)", "sregsub": `regsub($x, "(.)", "\1\1")`, "sgroup": "re.group.1",
 	"scatint": `"n" $x`, "sfcall": "f2($x)",
-	"blit": "true", "bvar": "$x", "bnot": "!$x", "blt": "($x < $y)", "bneglt": "(-$x < 0)", "bmatch": `($x ~ "^(.)(.*)")`,
+	"blit": "true", "bvar": "$x", "bnot": "(!$x)", "blt": "($x < $y)", "bneglt": "(-$x < 0)", "bmatch": `($x ~ "^(.)(.*)")`,
 	"beq": "($x == $y)", "bfgt": "($x > 1.0)", "bfneg": "(-$x < 0.0)", "brneg": "(-$x < 0s)",
 }
 
@@ -331,7 +331,7 @@ func initStmts(obj string) string {
 
 func runProgram(id string, p *fProg, keepVCL bool) (tr fTrace) {
 	src, lines := buildVCL(p)
-	tr = fTrace{ID: id, Scope: p.Scope, Stmts: p.Stmts}
+	tr = fTrace{ID: id, Scope: p.Scope, Stmts: p.Stmts, Events: []fEvent{}}
 	for _, pn := range pool {
 		tr.Pool = append(tr.Pool, pn.Name)
 	}
@@ -386,7 +386,9 @@ func runProgram(id string, p *fProg, keepVCL bool) (tr fTrace) {
 	ip.Debugger = rec
 	ip.SetScope(scopes[p.Scope])
 	_, err = ip.ProcessSubroutine(vmain, interpreter.DebugStepIn, nil)
-	tr.Events = rec.events
+	if rec.events != nil {
+		tr.Events = rec.events
+	}
 	if err != nil {
 		tr.Err = "run: " + firstLine(err.Error())
 	}
